@@ -28,6 +28,7 @@ struct Case {
   void desc(const std::string &s);             // append to the human-readable description of the decoded case
   void descf(const char *fmt, ...) __attribute__((format(printf, 2, 3)));
   void cls(const char *name, unsigned n = 1);  // classification counter
+  void attempt(const std::string &s);          // what is about to be executed (reported if the child dies inside it)
   void nontrivial();                           // mark the case non-trivial (by the harness' stated rule)
   void checks(unsigned n = 1);                 // number of oracle assertions evaluated
   void excluded(const char *finding_id);       // a known finding's trigger was excluded by construction
